@@ -19,7 +19,7 @@ func init() {
 		Decides: "the Bloom filter probes the same (word, bit) sequence when adding and when testing an item (canonical SSA expressions of the probe index, the mask and the probe count are equal); part pruning by time / key range discards a part exactly when its range is disjoint from the query range, over every ordering of the four endpoints; " +
 			"every place that dispatches on a criteria operator handles the same operator set (index filter builders, in-scan tag filters, inverted-index query builder, secondary-index tag filter); the trace-id part filter skips a part only when no requested id may be contained; block/primary-block time bounds are maintained as running min/max against their own accumulator, and a function that re-arms an accumulator's first-value guard also resets or consumes that accumulator (a part-level range is not restarted per primary block); the primary-block search of measure, stream and trace part iterators starts at the block that may hold the head of a straddling series (predicate: key <= first key; result n-1); the stream element index accumulates the id list and the timestamp list of every matching series together.",
 		NotDecided: "that the rows selected are exactly those satisfying the predicate, analyzer/tokenizer semantics of the inverted index, the block-level searches inside a primary block (findBlock).",
-		Technique:  "canonical symbolic expression equality between sibling functions (E8), relational world pruning on range endpoints, case-set agreement across packages, guarded accumulator updates",
+		Technique:  "canonical symbolic expression equality between sibling functions (E8), relational world pruning on range endpoints, case-set agreement across packages, guarded accumulator updates; truth table of the binary-search predicate; per-iteration path enumeration with phi resolution (two accumulators move together); re-arm/consume agreement of first-value guards",
 		Run:        runC08,
 	})
 }
